@@ -186,26 +186,50 @@ class DC:
 
 # the __init__ that @dataclass generates is a method of the class too: the by-hand routes decorate it after the fact
 POST = 'DC.__init__ = D(DC.__init__)\nNT.__new__ = D(NT.__new__)'
+# only under a configuration that turns decoration-time exceptions into warnings: a member whose hint beartype
+# cannot handle must leave its siblings (before *and* after it) decorated
+BODY_BAD = '''
+{classdec}
+class WithBad:
+    {m}
+    def before_bad(self, x: {h1}) -> {h2}:
+        return x
+    {m}
+    def bad(self, x: 42):
+        return x
+    {m}
+    def after_bad(self, x: {h2}) -> {h1}:
+        return x
+    {m}
+    @staticmethod
+    {f}
+    def after_bad_sm(x: {h1}) -> {h1}:
+        return x
+'''
 MEMBERS = ['plain', 'cm', 'sm', 'prop', 'prop', 'inner', 'meth']
-HAS_SELF = {'dinner': True, 'dcm': True, 'ntm': True, 'enm': True, 'encm': True, '__new__': True, 'pre': True, '__init__': True, '__call__': True, 'plain': True, 'cm': True, 'sm': False, 'prop': True, 'loose': True, 'gone': True, 'inner': True, 'nloose': True, 'meth': True}
+HAS_SELF = {'before_bad': True, 'after_bad': True, 'after_bad_sm': False, 'dinner': True, 'dcm': True, 'ntm': True, 'enm': True, 'encm': True, '__new__': True, 'pre': True, '__init__': True, '__call__': True, 'plain': True, 'cm': True, 'sm': False, 'prop': True, 'loose': True, 'gone': True, 'inner': True, 'nloose': True, 'meth': True}
 
 
 def source(h1, h2, confkw, route):
-    """route 'class': @D on the classes; route 'members': @D on every member the class defines."""
+    """route 'class': @D on the classes; route 'members': @D on every member the class defines; route
+    'functions': @D on the plain functions underneath the descriptors."""
+    body = BODY + (BODY_BAD if confkw.get('warning_cls_on_decorator_exception') else '')
     if route == 'class':
-        return HEADER.format(confkw=confkw) + BODY.format(h1=h1, h2=h2, classdec='@D', m='', ms='', f='', nesteddec='', post='')
+        return HEADER.format(confkw=confkw) + body.format(h1=h1, h2=h2, classdec='@D', m='', ms='', f='', nesteddec='', post='')
     if route == 'functions':
         # @D directly on the plain functions underneath the descriptors (and on plain methods)
-        body = (BODY.replace('    {m}\n    def ', '    @D\n    def ').replace('        {m}\n        def ', '        @D\n        def ')
+        body = (body.replace('    {m}\n    def ', '    @D\n    def ').replace('        {m}\n        def ', '        @D\n        def ')
                 .replace('            {m}\n            def ', '            @D\n            def '))
         return HEADER.format(confkw=confkw) + body.format(h1=h1, h2=h2, classdec='', m='', ms='', f='@D', nesteddec='', post=POST)
-    return HEADER.format(confkw=confkw) + BODY.format(h1=h1, h2=h2, classdec='', m='@D', ms='@D', f='', nesteddec='', post=POST)
+    return HEADER.format(confkw=confkw) + body.format(h1=h1, h2=h2, classdec='', m='@D', ms='@D', f='', nesteddec='', post=POST)
 
 
 def cases(tier, seed):
     out = []
-    confs = [{}, {'is_random': False}] if tier == 'quick' else [{}, {'is_random': False}, {'is_pep484_tower': True},
-                                                               {'violation_type': 'VerifError'}, {'violation_type': 'VerifWarning'}, {'strategy': 'On'}]
+    confs = ([{}, {'is_random': False}, {'warning_cls_on_decorator_exception': 'VerifWarning'}] if tier == 'quick' else
+             [{}, {'is_random': False}, {'is_pep484_tower': True}, {'violation_type': 'VerifError'}, {'violation_type': 'VerifWarning'},
+              {'strategy': 'On'}, {'warning_cls_on_decorator_exception': 'VerifWarning'},
+              {'warning_cls_on_decorator_exception': 'VerifWarning', 'is_random': False}])
     sets = HINT_SETS if tier != 'quick' else HINT_SETS[:5]
     for h1, h2 in sets:
         for ckw in confs:
@@ -216,7 +240,9 @@ def cases(tier, seed):
 
 def load(src):
     ns = {'__name__': 'bearverif.c13_generated'}
-    with recording() as recs:
+    import warnings
+    with recording() as recs, warnings.catch_warnings():
+        warnings.simplefilter('ignore')
         exec(compile(src, '<c13 class>', 'exec', dont_inherit=True), ns)
     return ns, recs
 
@@ -249,7 +275,7 @@ def run_case(prop, name, spec, confkw, tier, src):
                                      'detail': '; '.join(problems)[:600], 'hint': name, 'confkw': confkw})
             else:
                 out.discharged += 1
-            for mname in ('dinner', 'dcm', 'ntm', 'enm', 'encm', '__new__', 'pre', '__init__', '__call__', 'plain', 'cm', 'sm', 'prop', 'loose', 'gone', 'inner', 'nloose', 'meth'):
+            for mname in ('before_bad', 'after_bad', 'after_bad_sm', 'dinner', 'dcm', 'ntm', 'enm', 'encm', '__new__', 'pre', '__init__', '__call__', 'plain', 'cm', 'sm', 'prop', 'loose', 'gone', 'inner', 'nloose', 'meth'):
                 ra, rb = A.get(mname, []), B.get(mname, [])
                 if len(ra) != len(rb):
                     out.findings.append({'kind': 'c13_side', 'program': mname,
@@ -381,7 +407,7 @@ def replay_c13(p):
     if p.get('program') == 'side':
         probs = concrete_side_conditions(nsA, nsB, by_name(rA), by_name(rB), src.get('route', 'members'))
         A, B = by_name(rA), by_name(rB)
-        for mname in ('dinner', 'dcm', 'ntm', 'enm', 'encm', '__new__', 'pre', '__init__', '__call__', 'plain', 'cm', 'sm', 'prop', 'loose', 'gone', 'inner', 'nloose', 'meth'):
+        for mname in ('before_bad', 'after_bad', 'after_bad_sm', 'dinner', 'dcm', 'ntm', 'enm', 'encm', '__new__', 'pre', '__init__', '__call__', 'plain', 'cm', 'sm', 'prop', 'loose', 'gone', 'inner', 'nloose', 'meth'):
             if len(A.get(mname, [])) != len(B.get(mname, [])):
                 probs.append(f'{len(A.get(mname, []))} checking wrapper(s) generated for {mname} when decorating the class, '
                              f'{len(B.get(mname, []))} when decorating the {src.get("route", "members")}')
@@ -403,6 +429,10 @@ def replay_c13(p):
                     (inst if idx == 0 else ns['Sub']()).plain(obj)
                 elif m == 'pre':
                     inst.pre(obj)
+                elif m in ('before_bad', 'after_bad'):
+                    getattr(ns['WithBad'](), m)(obj)
+                elif m == 'after_bad_sm':
+                    ns['WithBad'].after_bad_sm(obj)
                 elif m == 'dinner':
                     K.Nested.Deep().dinner(obj)
                 elif m == 'dcm':
